@@ -361,6 +361,64 @@ def rule_top(chk, tpl):
             chk.holds('top-level-structure', rule, file=TPL, func='AccelerationEval.compute', detail='all %d configurations' % nconf)
 
 
+def rule_regroup(chk):
+    """MegaGroup._make_data on a model group (shared with C05: the order in which sources are visited fixes the floating-point summation order,
+    so it must not depend on anything but the user's listing)"""
+    ae = M.py(AE)
+    md = M.find_method(ae, 'MegaGroup', '_make_data')
+    # decided on a model run: _make_data is interpreted on a group of six model equations over three destinations, listed so that
+    # neither destinations nor sources nor equations are in alphabetical / grouped order; the Group class is a model that records
+    # its argument.  Expected: destinations by first appearance; per destination the equations without sources, the per-source
+    # lists and the list of all equations, each in the order the user listed them.
+    try:
+        itm = EM.interpreter()
+        EM.model_module(itm, '<g>', 'class G:\n    def __init__(self, equations):\n        self.equations = equations\n')
+
+        def meq(name, dest, sources, hook=None):
+            # sourced equations carry exactly one of the per-source hooks each, so that a filing rule that overlooks one kind misfiles one of them
+            kw = {hook: EM.func('def %s(self, d_idx, s_idx):\n    pass' % hook)} if hook else {}
+            return EM.mock(name=name, dest=dest, sources=sources, no_source=sources is None, **kw)
+        eqs = [meq('e1', 'solid', ['solid', 'fluid'], 'initialize_pair'), meq('e2', 'fluid', None, 'initialize'), meq('e3', 'solid', None, 'post_loop'),
+               meq('e4', 'solid', ['fluid'], 'loop'), meq('e5', 'fluid', ['solid'], 'loop_all'), meq('e6', 'boundary', ['fluid', 'boundary', 'solid'], 'loop'),
+               meq('e7', 'solid', ['boundary', 'solid'], 'loop_all'), meq('e8', 'fluid', None, 'reduce')]
+        mg = EM.instance(itm, AE, 'MegaGroup', Group=itm.lookup_global('<g>', 'G'))
+        res = EM.call(itm, mg, '_make_data', EM.mock(equations=eqs, has_subgroups=False))
+        itm.set_order_reversed = True
+        res_rev = EM.call(itm, mg, '_make_data', EM.mock(equations=eqs, has_subgroups=False))
+        itm.set_order_reversed = False
+
+        def nm(g):
+            x = g.args[0] if isinstance(g, AI.Inst) and g.args else g
+            return [q.attrs.get('name') for q in x] if isinstance(x, list) else repr(x)
+        def flat_(r_):
+            return [(d, nm(v[0]), [(k, nm(g)) for k, g in v[1].items()], nm(v[2])) for d, v in r_.items()] if isinstance(r_, dict) else r_
+        got = flat_(res)
+        got_rev = flat_(res_rev)
+        chk.decide(got == got_rev, 'regrouping-preserves-order', 'independent-of-set-order', node=md, file=AE, func='MegaGroup._make_data',
+                   detail_bad='the regrouped structure depends on the iteration order of a set: %s with one order, %s with the opposite one - string hashing is randomised per process, '
+                              'so the order of the per-source loops (and the floating-point summation order) changes from run to run' % (got, got_rev),
+                   detail_ok='same structure, same order, whichever way sets are iterated')
+        want = [('solid', ['e3'], [('solid', ['e1', 'e7']), ('fluid', ['e1', 'e4']), ('boundary', ['e7'])], ['e1', 'e3', 'e4', 'e7']),
+                ('fluid', ['e2', 'e8'], [('solid', ['e5'])], ['e2', 'e5', 'e8']),
+                ('boundary', [], [('fluid', ['e6']), ('boundary', ['e6']), ('solid', ['e6'])], ['e6'])]
+        # the order of the *sources* of one destination is not documented: compare those as a mapping
+        def norm_(x):
+            return [(d, a, dict(m), c) for d, a, m, c in x] if isinstance(x, list) else x
+        chk.decide(norm_(got) == norm_(want), 'regrouping-preserves-order', 'model-run', node=md, file=AE, func='MegaGroup._make_data',
+                   detail_bad='for equations e1..e8 = %s the regrouping gives (destination, no-source, per-source, all) = %s; expected %s'
+                              % ([(q.attrs['name'], q.attrs['dest'], q.attrs['sources']) for q in eqs], got, want),
+                   detail_ok='8 model equations over 3 destinations: destinations by first appearance, every list in user order, one entry per source')
+        sg = [EM.mock(equations=eqs[:3], has_subgroups=False), EM.mock(equations=eqs[3:], has_subgroups=False)]
+        res2 = EM.call(itm, mg, '_make_data', EM.mock(equations=sg, has_subgroups=True))
+        ok2 = isinstance(res2, list) and len(res2) == 2 and all(isinstance(x, AI.Inst) and x.cls.node.name == 'MegaGroup' for x in res2) and \
+            [x.args[0] for x in res2] == sg
+        chk.decide(ok2, 'regrouping-preserves-order', 'sub-groups-in-listed-order', node=md, file=AE, func='MegaGroup._make_data',
+                   detail_bad='a group of two sub-groups is regrouped as %s: expected one MegaGroup per sub-group, in the listed order' % (res2,),
+                   detail_ok='one MegaGroup per sub-group, in order')
+    except (AI.Unsupported, AI.Raised) as e:
+        chk.undecided('regrouping-preserves-order', 'model-run', node=md, file=AE, func='MegaGroup._make_data', detail='not interpretable on the model group: %s' % e)
+
+
 def rule_iteration(chk):
     """iterated groups: limits, exit test, non short-circuit convergence over every equation (shared with C02: the compiled loop must call
     converged() of every equation in every pass, like the Python semantics the equations were written against)"""
@@ -518,47 +576,7 @@ def rule_helpers(chk):
     # regrouping keeps user order
     ae = M.py(AE)
     md = M.find_method(ae, 'MegaGroup', '_make_data')
-    # decided on a model run: _make_data is interpreted on a group of six model equations over three destinations, listed so that
-    # neither destinations nor sources nor equations are in alphabetical / grouped order; the Group class is a model that records
-    # its argument.  Expected: destinations by first appearance; per destination the equations without sources, the per-source
-    # lists and the list of all equations, each in the order the user listed them.
-    try:
-        itm = EM.interpreter()
-        EM.model_module(itm, '<g>', 'class G:\n    def __init__(self, equations):\n        self.equations = equations\n')
-
-        def meq(name, dest, sources, hook=None):
-            # sourced equations carry exactly one of the per-source hooks each, so that a filing rule that overlooks one kind misfiles one of them
-            kw = {hook: EM.func('def %s(self, d_idx, s_idx):\n    pass' % hook)} if hook else {}
-            return EM.mock(name=name, dest=dest, sources=sources, no_source=sources is None, **kw)
-        eqs = [meq('e1', 'solid', ['solid', 'fluid'], 'initialize_pair'), meq('e2', 'fluid', None, 'initialize'), meq('e3', 'solid', None, 'post_loop'),
-               meq('e4', 'solid', ['fluid'], 'loop'), meq('e5', 'fluid', ['solid'], 'loop_all'), meq('e6', 'boundary', ['fluid', 'boundary', 'solid'], 'loop'),
-               meq('e7', 'solid', ['boundary', 'solid'], 'loop_all'), meq('e8', 'fluid', None, 'reduce')]
-        mg = EM.instance(itm, AE, 'MegaGroup', Group=itm.lookup_global('<g>', 'G'))
-        res = EM.call(itm, mg, '_make_data', EM.mock(equations=eqs, has_subgroups=False))
-
-        def nm(g):
-            x = g.args[0] if isinstance(g, AI.Inst) and g.args else g
-            return [q.attrs.get('name') for q in x] if isinstance(x, list) else repr(x)
-        got = [(d, nm(v[0]), [(k, nm(g)) for k, g in v[1].items()], nm(v[2])) for d, v in res.items()] if isinstance(res, dict) else res
-        want = [('solid', ['e3'], [('solid', ['e1', 'e7']), ('fluid', ['e1', 'e4']), ('boundary', ['e7'])], ['e1', 'e3', 'e4', 'e7']),
-                ('fluid', ['e2', 'e8'], [('solid', ['e5'])], ['e2', 'e5', 'e8']),
-                ('boundary', [], [('fluid', ['e6']), ('boundary', ['e6']), ('solid', ['e6'])], ['e6'])]
-        # the order of the *sources* of one destination is not documented: compare those as a mapping
-        def norm_(x):
-            return [(d, a, dict(m), c) for d, a, m, c in x] if isinstance(x, list) else x
-        chk.decide(norm_(got) == norm_(want), 'regrouping-preserves-order', 'model-run', node=md, file=AE, func='MegaGroup._make_data',
-                   detail_bad='for equations e1..e8 = %s the regrouping gives (destination, no-source, per-source, all) = %s; expected %s'
-                              % ([(q.attrs['name'], q.attrs['dest'], q.attrs['sources']) for q in eqs], got, want),
-                   detail_ok='8 model equations over 3 destinations: destinations by first appearance, every list in user order, one entry per source')
-        sg = [EM.mock(equations=eqs[:3], has_subgroups=False), EM.mock(equations=eqs[3:], has_subgroups=False)]
-        res2 = EM.call(itm, mg, '_make_data', EM.mock(equations=sg, has_subgroups=True))
-        ok2 = isinstance(res2, list) and len(res2) == 2 and all(isinstance(x, AI.Inst) and x.cls.node.name == 'MegaGroup' for x in res2) and \
-            [x.args[0] for x in res2] == sg
-        chk.decide(ok2, 'regrouping-preserves-order', 'sub-groups-in-listed-order', node=md, file=AE, func='MegaGroup._make_data',
-                   detail_bad='a group of two sub-groups is regrouped as %s: expected one MegaGroup per sub-group, in the listed order' % (res2,),
-                   detail_ok='one MegaGroup per sub-group, in order')
-    except (AI.Unsupported, AI.Raised) as e:
-        chk.undecided('regrouping-preserves-order', 'model-run', node=md, file=AE, func='MegaGroup._make_data', detail='not interpretable on the model group: %s' % e)
+    rule_regroup(chk)
     # an equation with sources is filed under each of its sources unless it has no pair code at all
     ns = [i for i in ast.walk(md) if isinstance(i, ast.If) and 'no_source' in compact(i.test)]
     okn = len(ns) == 1
@@ -585,7 +603,7 @@ def rule_helpers(chk):
             if missing:
                 okn, whyn = False, ('equations with sources are also filed as source-less when `%s`, which does not look at %s: their %s is then never called for any source'
                                     % (compact(v), missing, '/'.join(missing)))
-        body_ok = any(isinstance(l, ast.For) and compact(l.iter) == 'equation.sources' for l in ns[0].orelse)
+        body_ok = any(isinstance(l, ast.For) and any(compact(x) == 'equation.sources' for x in ast.walk(l.iter)) for l in ns[0].orelse)
         if okn and not body_ok:
             okn, whyn = False, 'a sourced equation is not filed under every one of equation.sources'
     chk.decide(okn, 'regrouping-preserves-order', 'sourced-equations-reach-their-sources', node=ns[0] if ns else md, file=AE, func='MegaGroup._make_data',
